@@ -39,7 +39,9 @@ var secrets = []string{"s3cr3tZq9", "Zq9:w7", "Zq9@w7", "Zq9%41w7", "Zq9ä/w7", 
 var carriers = []string{"basic-auth", "api-basic-auth", "proxy", "credentials", "tls-key-file", "mitm-cakey-file"}
 var forms = []string{"flag", "env", "config-file"}
 var levels = []string{"info", "error", "debug"}
-var modes = []string{"errors", "none", "short-url", "url"}
+// (round 9) the last two name a covered mode for each module (proxy, api) next to an unnamed default of "headers", which
+// then applies to no module: a named entry wins for its module whatever the order of the entries
+var modes = []string{"errors", "none", "short-url", "url", "proxy:url,api:errors,headers", "headers,proxy:short-url,api:none"}
 
 type pemPair struct{ cert, key []byte }
 
